@@ -1,4 +1,5 @@
 import NutilsVerif.Proofs.C14
+import NutilsVerif.Proofs.C14Cache
 /-!
 # C14 — property theorems: solvers return a certified solution or raise
 
@@ -664,5 +665,99 @@ example : solveM (fun v => fin (normSq v)) ⟨[[2, 1], [1, 3]], 2, 2, some [4, 7
 example : solveSys (fin (1/2)) 2 (some 5) (.iter [.yield (fin 0), .yield (fin 3), .yield (fin (1/2))]) = .returned 2 (fin (1/2)) := by
   decide +kernel
 example : (stepM 2 true 0 1 [false, true, false, true, true]).1 = true := by decide +kernel
+
+/-! ## histories on one Matrix object: the sub-block cache of `Matrix.submatrix` -/
+
+/-- the sub-block cache is transparent: a request is answered by the remembered block only when both masks are the ones
+it was built from, so what `submatrix` hands out is always `A[ix_(rows, cols)]` (or `A` itself for two full masks),
+whatever was requested from the same object before. -/
+theorem submatrix_history_spec (A : Mat) (st : Option SubCache) (hst : SubCache.valid A st) (hist : List (List Bool × List Bool)) :
+    (submatrixHist A st hist).map (·.2) =
+      hist.map (fun rc => if allTrue rc.1 && allTrue rc.2 then A else subMat rc.1 rc.2 A) := by
+  induction hist generalizing st with
+  | nil => rfl
+  | cons rc rest ih =>
+    obtain ⟨r, c⟩ := rc
+    simp only [submatrixHist, List.map_cons]
+    rw [ih _ (submatrixM_valid A st r c hst)]
+    congr 1
+    by_cases hall : (allTrue r && allTrue c) = true
+    · simp [submatrixM, hall]
+    · rw [submatrixM_val A st r c hst (fun h => absurd h hall)]; simp [hall]
+
+/-- the remembered block is used exactly when it was built from the same two masks (and the request is not the full matrix) -/
+theorem submatrix_hit_iff (A : Mat) (st : Option SubCache) (rows cols : List Bool) :
+    (submatrixM A st rows cols).2.1 = .hit ↔
+      (allTrue rows && allTrue cols) = false ∧ ∃ c, st = some c ∧ rows = c.rows ∧ cols = c.cols := by
+  unfold submatrixM
+  split
+  · next h => simp [h]
+  · next h =>
+    cases st with
+    | none => simp
+    | some c =>
+      simp only
+      split
+      · next hne =>
+        simp only [Bool.or_eq_true, bne_iff_ne, ne_eq] at hne
+        simp only [reduceCtorEq, false_iff, not_and, not_exists]
+        intro _ c' hc' hr hcn
+        cases hc'
+        rcases hne with h' | h' <;> exact h' (by assumption)
+      · next hne =>
+        have : rows = c.rows ∧ cols = c.cols := by simpa using hne
+        simp only [true_iff]
+        exact ⟨by simpa using h, c, rfl, this.1, this.2⟩
+
+/-- one solve on an object with an arbitrary (valid) cache gives exactly the answer of `Matrix.solve` on a fresh object,
+and leaves a valid cache behind. -/
+theorem solve_cached_eq (nrm : Vec → F) (st : Option SubCache) (s : SolveIn) (hst : SubCache.valid s.A st)
+    (hA : HasShape s.A s.nrows s.ncols) :
+    (solveCached nrm st s).2 = solveM nrm s ∧ SubCache.valid s.A (solveCached nrm st s).1 := by
+  constructor
+  · apply solveB_eq
+    intro I J hsel
+    apply submatrixM_val _ _ _ _ hst
+    intro hall
+    have hall' : allTrue I = true ∧ allTrue J = true := by simpa using hall
+    have hlen : I.length = s.nrows ∧ J.length = s.ncols := by
+      unfold solveSel at hsel
+      split at hsel
+      · cases hsel
+      · split at hsel
+        · cases hsel
+        · next lhs J' hc =>
+          split at hsel
+          · cases hsel
+          · next I' hr =>
+            cases hsel
+            exact ⟨prepRows_length (prepCols_length hc) hr, prepCols_length hc⟩
+    exact subMat_allTrue s.A I J hall'.1 hall'.2 (by rw [hlen.1, hlen.2]; exact hA)
+  · unfold solveCached
+    simp only
+    split
+    · exact submatrixM_valid _ _ _ _ hst
+    · exact hst
+
+/-- **history independence of `Matrix.solve`** — for every sequence of solves on ONE Matrix object (any mixture of
+`lhs0` / boolean / NaN-float `constrain` / `rconstrain`, any inner-solver behaviour, any earlier cache content) every
+outcome equals that of the same solve on a fresh object; together with `solve_post` / `constrain_exact` each returned
+vector therefore carries its prescribed entries and a free-row residual within tolerance of the *full* matrix. -/
+theorem solve_history_independent (nrm : Vec → F) (A : Mat) (nr nc : Nat) (hA : HasShape A nr nc)
+    (st : Option SubCache) (hst : SubCache.valid A st) (reqs : List SolveIn)
+    (hreq : ∀ s ∈ reqs, s.A = A ∧ s.nrows = nr ∧ s.ncols = nc) :
+    solveHist nrm st reqs = reqs.map (solveM nrm) := by
+  induction reqs generalizing st with
+  | nil => rfl
+  | cons s rest ih =>
+    obtain ⟨hsA, hsr, hsc⟩ := hreq s (by simp)
+    have h1 := solve_cached_eq nrm st s (hsA ▸ hst) (by rw [hsA, hsr, hsc]; exact hA)
+    simp only [solveHist, List.map_cons]
+    rw [h1.1, ih _ (hsA ▸ h1.2) (fun s' hs' => hreq s' (by simp [hs']))]
+
+/-- the hypotheses of `solve_history_independent` are satisfiable with a cache that is hit: rows `[T,F]`, columns `[F,T]`
+first, then the same rows with `rconstrain` absent. -/
+example : ∃ r, submatrixHist [[1, 2], [3, 4]] none [([true, false], [false, true]), ([true, false], [true, false]), ([true, false], [true, false])]
+    = r ∧ r.map (·.1) = [.miss, .miss, .hit] := ⟨_, rfl, by decide⟩
 
 end NutilsVerif.C14
